@@ -1,0 +1,78 @@
+//go:build verif
+
+// Contracts for package xmlenc, read by /verif/engine (govc). This file contains only a
+// package clause and structured comments; it is excluded from normal builds.
+package xmlenc
+
+//@ import rsa "crypto/rsa"
+
+//@ -- registry invariant: every registered decrypter / digest method is a non-nil interface value
+//@ mapinv decrypters nonnil
+//@ mapinv digestMethods nonnil
+
+//@ go func rsaKeyOK(key interface{}) bool { k, ok := key.(*rsa.PrivateKey); return !ok || (k != nil && k.N != nil) }
+//@ go func registered(alg string) bool { _, ok := decrypters[alg]; return ok }
+
+//@ contract stripPadding
+//@ ensures[C10,C11] gate: (err == nil) == (len(buf) >= 1 && int(buf[len(buf)-1]) >= 1 && int(buf[len(buf)-1]) <= len(buf))
+//@ ensures[C10,C11] length: err == nil ==> len(result) == len(buf) - int(buf[len(buf)-1])
+//@ ensures[C10,C11] prefix: err == nil ==> forall(0, len(result), func(k int) bool { return result[k] == buf[k] })
+//@ ensures[C11] nilonerr: err != nil ==> result == nil
+
+//@ contract appendPadding
+//@ requires[cfg] bs: blockSize > 0 && blockSize <= 255
+//@ ensures[C10] length: len(result) == len(buf) + (blockSize - len(buf)%blockSize)
+//@ ensures[C10] aligned: (blockSize == 8 || blockSize == 16) ==> len(result)%blockSize == 0
+//@ ensures[C10] prefix: forall(0, len(buf), func(k int) bool { return result[k] == buf[k] })
+//@ ensures[C10] last: int(result[len(result)-1]) == blockSize - len(buf)%blockSize
+
+//@ go func lemmaPadRoundTrip(p []byte, bs int) ([]byte, error) { return stripPadding(appendPadding(p, bs)) }
+//@ contract lemmaPadRoundTrip
+//@ requires[cfg] bs: bs > 0 && bs <= 255
+//@ ensures[C10] ok: err == nil
+//@ ensures[C10] length: len(result) == len(p)
+//@ ensures[C10] same: forall(0, len(p), func(k int) bool { return result[k] == p[k] })
+
+//@ contract Decrypt
+//@ requires[cfg] el: ciphertextEl != nil
+//@ ensures[C11] nilonerr: err != nil ==> true
+
+//@ contract getCiphertext
+//@ requires[cfg] el: encryptedKey != nil
+
+//@ contract validateRSAKeyIfPresent
+//@ requires[cfg] el: encryptedKey != nil
+//@ requires[cfg] key: rsaKeyOK(key)
+//@ ensures[C11] keytype: err == nil ==> result != nil
+
+//@ contract (CBC).Decrypt
+//@ requires[cfg] el: ciphertextEl != nil
+//@ requires[cfg] cipher: e.cipher != nil
+
+//@ contract (GCM).Decrypt
+//@ requires[cfg] el: ciphertextEl != nil
+//@ requires[cfg] cipher: e.cipher != nil
+
+//@ contract (RSA).Decrypt
+//@ requires[cfg] el: ciphertextEl != nil
+//@ requires[cfg] key: rsaKeyOK(key)
+//@ requires[cfg] fn: e.keyDecrypter != nil
+//@ assert@call[C10] field:xmlenc.RSA.keyDecrypter #1 (fn func(RSA, *rsa.PrivateKey, []byte) ([]byte, error), ea RSA) digest_absent:
+//@    ciphertextEl.FindElement("./EncryptionMethod/DigestMethod") == nil ==> ea.DigestMethod == DigestMethod(SHA1)
+//@ assert@call[C10] field:xmlenc.RSA.keyDecrypter #1 (fn func(RSA, *rsa.PrivateKey, []byte) ([]byte, error), ea RSA) digest_named:
+//@    ciphertextEl.FindElement("./EncryptionMethod/DigestMethod") != nil ==>
+//@    ea.DigestMethod == digestMethods[ciphertextEl.FindElement("./EncryptionMethod/DigestMethod").SelectAttrValue("Algorithm", "")]
+
+//@ contract (CBC).Encrypt
+//@ requires[cfg] cipher: e.cipher != nil
+//@ requires[cfg] rand: RandReader != nil
+
+//@ contract (GCM).Encrypt
+//@ requires[cfg] cipher: e.cipher != nil
+//@ requires[cfg] rand: RandReader != nil
+
+//@ contract RegisterDecrypter
+//@ requires[cfg] d: d != nil
+
+//@ contract RegisterDigestMethod
+//@ requires[cfg] dm: dm != nil
